@@ -64,9 +64,13 @@ func (d *Dir) IsDir() bool {
 	return true
 }
 
-// getNodes return nodes for directory
+// getNodes return a snapshot of directory nodes
 func (d *Dir) getNodes() []os.FileInfo {
-	return d.nodes
+	d.mu.RLock()
+	defer d.mu.RUnlock()
+	nodes := make([]os.FileInfo, len(d.nodes))
+	copy(nodes, d.nodes)
+	return nodes
 }
 
 // getNodes return nodes for directory
